@@ -291,6 +291,14 @@ func runC14(c *an.Ctx) {
 								case *ssa.Call:
 									okUse = okUse && an.StaticCallee(&x.Call) == d.single
 								case *ssa.MakeClosure, *ssa.Store, *ssa.DebugRef:
+								case *ssa.Return:
+									// a snapshot helper: fine when only the deletion drivers call it
+									sites := c.P.CG().Sites(fn)
+									okUse = okUse && len(sites) > 0
+									for _, cs := range sites {
+										root := an.Enclosing(cs.Caller)
+										okUse = okUse && (root == d.seq || root == d.par)
+									}
 								default:
 									okUse = false
 								}
@@ -305,7 +313,7 @@ func runC14(c *an.Ctx) {
 			}
 		})
 	}
-	c.Min("C14.c", "reads of the handler list", nLoads, 3)
+	c.Min("C14.c", "reads of the handler list", nLoads, 2)
 	// callers of the step
 	callers := c.P.CG().Sites(d.single)
 	c.Min("C14.c", "call sites of the per-height step", len(callers), 2)
